@@ -12,6 +12,7 @@ import random
 import struct
 import sys
 
+AUTHORED_RECTS = []   # filled by the scenario: rectangles of the authored locations, in authoring order
 CARRIED_SWITCHES = (0, 1, 200, 3, 4)   # 3 and 4 carry custom names in the scx fixture
 
 sys.path.insert(0, os.path.dirname(os.path.abspath(__file__)))
@@ -56,6 +57,7 @@ def build(scen, pad):
     # several new locations may share a label (per-player spawn areas) while being different rectangles
     locs += [RichLocation(1000 + 64 * i, 2000 + i, 1100 + 64 * i, 2100 + i, RichString("c14 spawn %d" % scen)) for i in range(4)]
     sws = [RichSwitch(RichString("c14 switch %d-%d" % (scen, i))) for i in range(nsw)] + [RichSwitch() for _ in range(scen % 2)]
+    AUTHORED_RECTS[:] = [[l.left_x1, l.top_y1, l.right_x2, l.bottom_y2] for l in locs]
     cus = [RichCuwpSlot(10 + i, 20 + i, 30 + i, _units_in_hangar=i, _invincible=bool(i % 2)) for i in range(ncu)]
     units = list(UnitId)
     players = list(PlayerId)
@@ -194,7 +196,16 @@ def canonical(base, out):
             if a["_action_id"] == 13 and a["_quantifier_or_switch_or_order"] == 5:
                 carried.append(a["_second_group"])
     h.update(json.dumps(carried).encode())
-    return h.hexdigest() + ("" if carried == list(CARRIED_SWITCHES) else " BAD-CARRIED %s" % carried)
+    # ... and every "minimap ping" of the first authored trigger (one per authored location, in authoring order,
+    # after the first one) must point at a slot holding exactly that location's rectangle
+    pings = []
+    for t in to[b"TRIG"]["triggers"][nbase:nbase + 1]:
+        for a in t["acts"]:
+            if a["_action_id"] == 28:
+                r = to[b"MRGN"]["records"][a["_location_id"] - 1] if 1 <= a["_location_id"] <= len(to[b"MRGN"]["records"]) else {}
+                pings.append([r.get("_left_x1"), r.get("_top_y1"), r.get("_right_x2"), r.get("_bottom_y2")])
+    bad_loc = AUTHORED_RECTS and pings[1:] != AUTHORED_RECTS
+    return h.hexdigest() + ("" if carried == list(CARRIED_SWITCHES) else " BAD-CARRIED %s" % carried) + (" BAD-LOCATIONS %s" % pings[1:3] if bad_loc else "")
 
 
 if __name__ == "__main__":
